@@ -64,11 +64,31 @@ def has(obj, what):
     return getattr(type(obj), what, None) is not None
 
 
+ROUTE = ['parse']      # set per case: parse | str | path | file
+
+
 def get_db(s, how, style, **kw):
+    import os
+    import tempfile
+    from pathlib import Path
     from pydbml import PyDBML
     if how == 'parsed':
         text, _ = write(s, style)
-        return PyDBML.parse(text, allow_properties=s.allow_properties, **kw)
+        route = ROUTE[0]
+        if route == 'parse':
+            return PyDBML.parse(text, allow_properties=s.allow_properties, **kw)
+        if route == 'str':
+            return PyDBML(text, allow_properties=s.allow_properties, **kw)
+        fd, path = tempfile.mkstemp(prefix='pbt-c16-', suffix='.dbml')
+        try:
+            with os.fdopen(fd, 'w', encoding='utf8', newline='') as fh:
+                fh.write(text)
+            if route == 'path':
+                return PyDBML(Path(path), allow_properties=s.allow_properties, **kw)
+            with open(path, encoding='utf8', newline='') as fh:
+                return PyDBML(fh, allow_properties=s.allow_properties, **kw)
+        finally:
+            os.unlink(path)
     return build(s, **kw)
 
 
@@ -206,11 +226,12 @@ def check_default(s, how, style, schedule, case):
 
 
 def evaluate(c, ctx: Ctx = None):
-    s, style, handled_sql, handled_dbml, schedule = c
+    s, style, handled_sql, handled_dbml, schedule = c[:5]
+    ROUTE[0] = c[5] if len(c) > 5 else 'parse'
     viols = []
     for how in ('parsed', 'built'):
         case = dict(schema=model.to_json(s), how=how, handled_sql=sorted(handled_sql), handled_dbml=sorted(handled_dbml),
-                    schedule=schedule)
+                    schedule=schedule, route=ROUTE[0])
         try:
             viols += check_custom(s, how, style, handled_sql, handled_dbml, schedule, dict(case, cfg='custom'))
             viols += check_default(s, how, style, schedule, dict(case, cfg='default'))
@@ -223,7 +244,7 @@ def evaluate(c, ctx: Ctx = None):
         if ctx is not None:
             partial = 0 < len(handled_sql | handled_dbml) and (len(handled_sql) < len(TYPE_NAMES) or len(handled_dbml) < len(TYPE_NAMES))
             key = thash(model.to_json(s).__repr__() + how + str(sorted(handled_sql)) + str(sorted(handled_dbml)) + str(schedule))
-            ctx.record('c' + key, partial or len(schedule) >= 6, ['cfg:custom', f'how:{how}', 'detached'],
+            ctx.record('c' + key + ROUTE[0], partial or len(schedule) >= 6, ['cfg:custom', f'how:{how}', 'detached'] + ([f'route:{ROUTE[0]}'] if how == 'parsed' else []),
                        dict(how=how, handled_sql=sorted(handled_sql), handled_dbml=sorted(handled_dbml), schedule=schedule[:8]) if len(ctx.samples) < 3 else None)
             ctx.record('d' + key, len(schedule) >= 6, ['cfg:default', f'how:{how}'])
     return viols
@@ -232,6 +253,7 @@ def evaluate(c, ctx: Ctx = None):
 def replay(case):
     from ..surface import Style
     s = model.from_json(case['schema'])
+    ROUTE[0] = case.get('route', 'parse')
     sched = [tuple(x) for x in case['schedule']]
     if case.get('cfg') == 'custom':
         return check_custom(s, case['how'], Style(), set(case['handled_sql']), set(case['handled_dbml']), sched, case)
@@ -249,6 +271,6 @@ def shard(ctx: Ctx):
         hs = set(draw(st.lists(st.sampled_from(TYPE_NAMES), unique=True)))
         hd = set(draw(st.lists(st.sampled_from(TYPE_NAMES), unique=True)))
         sched = draw(st.lists(st.tuples(st.integers(0, 14), st.sampled_from(['sql', 'dbml'])), max_size=12))
-        return s, draw(gen.styles()), hs, hd, sched
+        return s, draw(gen.styles()), hs, hd, sched, draw(st.sampled_from(['parse', 'str', 'path', 'file']))
 
     hyp_run(ctx, 'configs', cases(), lambda c: evaluate(c, ctx), 60 if quick else 600)
